@@ -881,7 +881,8 @@ func c10Locks(c *Ctx, a *clientAnchors) {
 				}
 			case *ssa.Defer:
 				if x.Call.StaticCallee() != nil && x.Call.StaticCallee().Name() == "Unlock" && len(x.Call.Args) > 0 && a.isClientFieldAddr(x.Call.Args[0], "pendingMu") {
-					r.Undecided("C10-K5", shortName(f)+": deferred Unlock", c.P.ipos(in), "deferred Unlock is outside the recognised idioms of the lock dataflow")
+					// released at the function's exits (RunDefers): modelled by the lock dataflow
+					r.Check(li.must[in], "C10-K5", shortName(f)+": deferred Unlock registered while the lock is held", c.P.ipos(in), "must-hold at defer", "an Unlock is deferred on a path where pendingMu is not held")
 				}
 			}
 			if acc && !exempt {
